@@ -214,6 +214,18 @@ Theorem filing_complete_by_shape : forall sh k,
 Proof. exact filing_by_shape. Qed.
 Print Assumptions filing_complete_by_shape.
 
+(* hence guard K2 holds for every stylesheet without function-headed alternatives whose matcher
+   respects the node kinds of the last step *)
+Theorem guard_K2_from_shapes :
+  forall (node : Type) (key_of : node -> nkey) (pmatch : N -> node -> bool) s n (shape_of : alt -> shape),
+  (forall t a, In t (all_templates s) -> In a (t_alts t) ->
+     a_target a = fst (target_data (shape_of a)) /\
+     sh_last (shape_of a) <> LFunction /\
+     (pmatch (a_pat a) n = true -> step_may_match (sh_last (shape_of a)) (key_of n) = true)) ->
+  filed_where_matching node key_of pmatch s n = true.
+Proof. exact filed_from_shapes. Qed.
+Print Assumptions guard_K2_from_shapes.
+
 (* ... and fails for id()/key() on text, comment, processing-instruction and root nodes *)
 Theorem filing_complete_refuted_function_pattern : forall m k,
   In k [KText; KComment; KPI; KRoot] ->
